@@ -133,6 +133,8 @@ func pipelineScenarios(full bool) []scenario {
 		{"balance", "--color=false", "-m", "1:1,Assets", "--remap", "Liabilities", "--days"},
 		{"balance", "--color=false", "-v", "CHF", "-m", "1:2,Assets", "-m", "1:1,Liabilities"},
 		{"portfolio", "returns", "-v", "CHF", "--days"}, {"portfolio", "weights", "-v", "CHF", "--color=false", "--days"},
+		// two stages of one pipeline evaluate the same --account / --commodity filters
+		{"portfolio", "returns", "-v", "CHF", "--account", "Portfolio|Bank", "--commodity", "USD|CHF", "--days"},
 		// valuation and --remap both look up counterpart accounts in the registry, from different stages
 		{"balance", "--color=false", "-v", "CHF", "--remap", "Assets|Income|Expenses", "--days"},
 	}
